@@ -130,19 +130,20 @@ func ReadConfigAndRunEngine() {
 	ctx, cancel := context.WithCancel(context.Background())
 	defer cancel()
 
+	// Subscribe before engine start, signal received right after start should not kill process ungracefully.
+	sigs := make(chan os.Signal, 2)
+	signal.Notify(sigs, syscall.SIGINT, syscall.SIGTERM)
+
 	errs := make(chan error)
 	go runEngine(ctx, pandora, errs)
 
 	// waiting for signal or error message from engine
-	awaitPandoraTermination(pandora, cancel, errs, log)
+	awaitPandoraTermination(pandora, cancel, errs, log, sigs)
 	log.Info("Engine run successfully finished")
 }
 
 // helper function that awaits pandora run
-func awaitPandoraTermination(pandora *engine.Engine, gracefulShutdown func(), errs chan error, log *zap.Logger) {
-	sigs := make(chan os.Signal, 2)
-	signal.Notify(sigs, syscall.SIGINT, syscall.SIGTERM)
-
+func awaitPandoraTermination(pandora *engine.Engine, gracefulShutdown func(), errs chan error, log *zap.Logger, sigs chan os.Signal) {
 	select {
 	case sig := <-sigs:
 		var interruptTimeout = 3 * time.Second
